@@ -28,6 +28,7 @@ import (
 type c20Op struct {
 	kind string // set, del, wait
 	k    int
+	c    int // cost of a set (0 = 1)
 }
 
 type c20Write struct {
@@ -56,22 +57,31 @@ type c20Cfg struct {
 	chanSz  int
 	bufSz   int
 	scripts [][]c20Op
+	pre     []c20Op // sequential pre-history (not explored)
 }
 
 func c20Drivers() []c20Cfg {
-	S := func(k int) c20Op { return c20Op{"set", k} }
-	D := func(k int) c20Op { return c20Op{"del", k} }
-	W := c20Op{"wait", 0}
-	E := c20Op{"est", 0}
+	S := func(k int) c20Op { return c20Op{kind: "set", k: k} }
+	D := func(k int) c20Op { return c20Op{kind: "del", k: k} }
+	W := c20Op{kind: "wait"}
+	E := c20Op{kind: "est"}
+	G := func(k int) c20Op { return c20Op{kind: "get", k: k} }
 	return []c20Cfg{
-		{"W1-two-waiters", 10, 4, 2, [][]c20Op{{S(1), W}, {S(2), W}}},
-		{"W2-three-waiters", 10, 4, 2, [][]c20Op{{S(1), W}, {W}, {S(2), W}}},
-		{"W3-full-queue", 10, 2, 2, [][]c20Op{{S(1), S(2), S(3), W}, {W}}},
-		{"W4-delete-evict", 1, 2, 2, [][]c20Op{{S(1), D(1), W}, {S(2), S(3), W}}},
+		{name: "W1-two-waiters", maxsize: 10, chanSz: 4, bufSz: 2, scripts: [][]c20Op{{S(1), W}, {S(2), W}}},
+		{name: "W2-three-waiters", maxsize: 10, chanSz: 4, bufSz: 2, scripts: [][]c20Op{{S(1), W}, {W}, {S(2), W}}},
+		{name: "W3-full-queue", maxsize: 10, chanSz: 2, bufSz: 2, scripts: [][]c20Op{{S(1), S(2), S(3), W}, {W}}},
+		{name: "W4-delete-evict", maxsize: 1, chanSz: 2, bufSz: 2, scripts: [][]c20Op{{S(1), D(1), W}, {S(2), S(3), W}}},
 		// other users of the policy lock (size poll, expiry tick, reader) while markers are in flight; batch size 4 and 8
-		{"W5-size-poller", 10, 4, 4, [][]c20Op{{S(1), W}, {E, E}, {S(2), W}}},
-		{"W6-tick", 10, 4, 4, [][]c20Op{{S(1), W}, {c20Op{"tick", 0}}, {W}}},
-		{"W7-size-poller-b8", 10, 4, 8, [][]c20Op{{S(1), S(2), W}, {E, E}}},
+		{name: "W5-size-poller", maxsize: 10, chanSz: 4, bufSz: 4, scripts: [][]c20Op{{S(1), W}, {E, E}, {S(2), W}}},
+		{name: "W6-tick", maxsize: 10, chanSz: 4, bufSz: 4, scripts: [][]c20Op{{S(1), W}, {c20Op{kind: "tick"}}, {W}}},
+		// a cost-growing Set of a key whose neighbours have been read (they sit in the protected region; read-buffer
+		// capacity rewritten to 2, so the pre-history's hits reach the policy): the evictions it causes must have
+		// happened when the Wait behind it returns
+		{name: "W8-cost-growth", maxsize: 4, chanSz: 4, bufSz: 2, pre: []c20Op{S(1), S(2), S(3), S(4), W, G(1), G(2), G(3), G(4), G(1), G(2)},
+			scripts: [][]c20Op{{{kind: "set", k: 1, c: 4}, W}, {E}}},
+		{name: "W8b-cost-growth-3", maxsize: 4, chanSz: 4, bufSz: 2, pre: []c20Op{S(1), S(2), S(3), S(4), W, G(1), G(2), G(3), G(4), G(3), G(2)},
+			scripts: [][]c20Op{{{kind: "set", k: 2, c: 3}, W}, {{kind: "set", k: 3, c: 2}, W}}},
+		{name: "W7-size-poller-b8", maxsize: 10, chanSz: 4, bufSz: 8, scripts: [][]c20Op{{S(1), S(2), W}, {E, E}}},
 	}
 }
 
@@ -82,42 +92,57 @@ func c20Body(cfg c20Cfg) (*c20Run, func()) {
 			r.h = newHStore(hOpts{MaxSize: cfg.maxsize, ChanSize: cfg.chanSz, BufSize: cfg.bufSz})
 		})
 		settle()
+		do := func(ci, oi int, op c20Op) {
+			switch op.kind {
+			case "set":
+				w := &c20Write{client: ci, k: op.k, v: 100*ci + oi + 1, kind: "set"}
+				r.writes = append(r.writes, w)
+				cost := int64(op.c)
+				if cost == 0 {
+					cost = 1
+				}
+				r.h.s.Set(op.k, w.v, cost, 0)
+				r.clock++
+				w.ret = r.clock
+			case "del":
+				w := &c20Write{client: ci, k: op.k, kind: "del"}
+				// the value this client stored under k earlier (keys are client-private)
+				for _, p := range r.writes {
+					if p.client == ci && p.k == op.k && p.kind == "set" {
+						w.v = p.v
+					}
+				}
+				r.writes = append(r.writes, w)
+				r.h.s.Delete(op.k)
+				r.clock++
+				w.ret = r.clock
+			case "est":
+				r.h.s.EstimatedSize() // takes the policy lock
+			case "get":
+				r.h.s.Get(op.k) // a hit ends in the read buffer; a full stripe is drained under the policy lock
+			case "tick":
+				vrt.Advance(2 * sec)
+				vrt.Tick() // the maintenance ticker goroutine wakes up and takes the policy lock
+			case "wait":
+				r.clock++
+				called := r.clock
+				r.h.s.Wait()
+				vrt.Quiet(func() { r.atWaitReturn(ci, called) })
+			}
+		}
+		if len(cfg.pre) > 0 {
+			vrt.NoBranch(func() {
+				for oi, op := range cfg.pre {
+					do(9, oi, op)
+				}
+			})
+			settle()
+		}
 		for ci, sc := range cfg.scripts {
 			ci, sc := ci, sc
 			vrt.GoNamed(fmt.Sprintf("client%d", ci), func() {
 				for oi, op := range sc {
-					switch op.kind {
-					case "set":
-						w := &c20Write{client: ci, k: op.k, v: 100*ci + oi + 1, kind: "set"}
-						r.writes = append(r.writes, w)
-						r.h.s.Set(op.k, w.v, 1, 0)
-						r.clock++
-						w.ret = r.clock
-					case "del":
-						w := &c20Write{client: ci, k: op.k, kind: "del"}
-						// the value this client stored under k earlier (keys are client-private)
-						for _, p := range r.writes {
-							if p.client == ci && p.k == op.k && p.kind == "set" {
-								w.v = p.v
-							}
-						}
-						r.writes = append(r.writes, w)
-						r.h.s.Delete(op.k)
-						r.clock++
-						w.ret = r.clock
-					case "est":
-						r.h.s.EstimatedSize() // takes the policy lock
-					case "get":
-						r.h.s.Get(op.k) // a hit ends in the read buffer; a full stripe is drained under the policy lock
-					case "tick":
-						vrt.Advance(2 * sec)
-						vrt.Tick() // the maintenance ticker goroutine wakes up and takes the policy lock
-					case "wait":
-						r.clock++
-						called := r.clock
-						r.h.s.Wait()
-						vrt.Quiet(func() { r.atWaitReturn(ci, called) })
-					}
+					do(ci, oi, op)
 				}
 				r.done[ci] = true
 			})
@@ -171,7 +196,8 @@ func matches(it WriteBufItem[int, int], w *c20Write) bool {
 		return false
 	}
 	if w.kind == "set" {
-		return it.code == NEW || it.code == UPDATE
+		// the value too: a later Set of the same key (W8 drivers) reuses the entry, and its event is not w's
+		return (it.code == NEW || it.code == UPDATE) && it.entry.value == w.v
 	}
 	return it.code == REMOVE
 }
@@ -213,7 +239,16 @@ func (r *c20Run) atWaitReturn(ci, called int) {
 			r.bad = append(r.bad, fmt.Sprintf("client%d: Wait returned but %s(%d) by client%d, which had returned before the Wait was called, is not applied: %s", ci, w.kind, w.k, w.client, why))
 		}
 	}
-	if ws := int64(r.h.s.policy.weightedSize); ws > r.maxsize {
+	// (3) only when every write begun so far had returned before this Wait was called: the policy evicts entry by
+	// entry (each removal takes a shard lock), so while it applies somebody else's later cost-growing Set the total
+	// is legitimately above MaxSize for a moment
+	settled := true
+	for _, w := range r.writes {
+		if w.ret == 0 || w.ret >= called {
+			settled = false
+		}
+	}
+	if ws := int64(r.h.s.policy.weightedSize); ws > r.maxsize && settled {
 		r.bad = append(r.bad, fmt.Sprintf("client%d: policy total %d > MaxSize %d when Wait returned", ci, ws, r.maxsize))
 	}
 	r.waits = append(r.waits, c20Wait{ci, called, len(r.h.notes)})
